@@ -314,22 +314,40 @@ impl<K, V, A: Allocator> CaoHashMap<K, V, A> {
 
             let result = std::ptr::read(self.values.as_ptr().add(i));
             self.hashes_mut()[i] = 0;
+            self.count -= 1;
 
             // if the consecutive buckets are not empty, move them back, so lookups dont fail
             // and they aren't in their optimal position
             //
+            let cap = self.capacity();
             let mut i = i; // track the last empty slot
-            let mut j = (i + 1) % self.capacity();
+            let mut j = (i + 1) % cap;
             while self.hashes()[j] != 0 {
-                // if the jth item is not in its optimal bucket, then move it back to the empty
-                // slot
-                if (self.hashes()[j] % self.capacity() as u64) != j as u64 {
+                // the jth item may fill the empty slot unless its optimal bucket lies
+                // (cyclically) after the empty slot, up to and including j: in that case moving
+                // it would put it in front of its optimal bucket, where lookups can't find it
+                let home = Self::optimal_ind(self.hashes()[j], cap);
+                let stays = if i <= j {
+                    i < home && home <= j
+                } else {
+                    i < home || home <= j
+                };
+                if !stays {
                     self.hashes_mut()[i] = self.hashes()[j];
-                    std::ptr::swap(self.keys.as_ptr().add(i), self.keys.as_ptr().add(j));
-                    std::ptr::swap(self.values.as_ptr().add(i), self.values.as_ptr().add(j));
+                    std::ptr::copy_nonoverlapping(
+                        self.keys.as_ptr().add(j),
+                        self.keys.as_ptr().add(i),
+                        1,
+                    );
+                    std::ptr::copy_nonoverlapping(
+                        self.values.as_ptr().add(j),
+                        self.values.as_ptr().add(i),
+                        1,
+                    );
+                    self.hashes_mut()[j] = 0;
                     i = j;
                 }
-                j = (j + 1) % self.capacity();
+                j = (j + 1) % cap;
             }
 
             return Some(result);
@@ -415,9 +433,7 @@ impl<K, V, A: Allocator> CaoHashMap<K, V, A> {
     {
         let len = self.capacity;
 
-        // improve uniformity via fibonacci hashing
-        // in wasm sizeof usize is 4, so multiply our already 32 bit hash
-        let mut ind = (needle.wrapping_mul(2654435769) as usize) % len;
+        let mut ind = Self::optimal_ind(needle, len);
         let hashes = self.hashes();
         let keys = self.keys.as_ptr();
         loop {
@@ -430,6 +446,14 @@ impl<K, V, A: Allocator> CaoHashMap<K, V, A> {
             }
             ind = (ind + 1) % len;
         }
+    }
+
+    /// The bucket where probing for `hash` starts
+    #[inline]
+    fn optimal_ind(hash: u64, capacity: usize) -> usize {
+        // improve uniformity via fibonacci hashing
+        // in wasm sizeof usize is 4, so multiply our already 32 bit hash
+        (hash.wrapping_mul(2654435769) as usize) % capacity
     }
 
     fn hashes(&self) -> &[u64] {
